@@ -213,6 +213,19 @@ MUTANTS = [
 ]
 
 BENIGN = [
+ dict(id="B13b", props=["C03", "C13", "C01", "C12"], file=TL,
+      what="TwoLevel clamps its binomial budget to what one period block can use (period - 1), inside the generator: never a VIOLATION",
+      old="""                snapshots = [n0s]
+""", new="""                self._binomial_snapshots = min(self._binomial_snapshots,
+                                               max(self._period - 1, 0))
+                snapshots = [n0s]
+""", expect=[0, 2]),
+ dict(id="B03c", props=["C03", "C13"], file=TL,
+      what="TwoLevel re-stores its own period in the generator (no-op store of a configuration attribute)",
+      old="""                snapshots = [n0s]
+""", new="""                self._period = self._period + 0
+                snapshots = [n0s]
+""", expect=[0]),
  dict(id="B19b", props=["C19", "C01", "C02", "C07"], file=SQ + "periodic_disk_revolve.py", what="periodic sweep rewritten as for loops over a period index (correct count)",
       edits=[("""    current_task = 0
     while l - current_task > mx:
